@@ -1,6 +1,9 @@
 """C06 helpers: the kernel zoo (every kernel exported by gpytorch.kernels that can be built with simple arguments on
 CPU without KeOps), the label stub kernel that binds LazyKernel.tla to the real _getitem code exactly, and input
-generators.  Everything is float64; hyperparameters are randomised (seeded) and distinct per batch element."""
+generators.  Everything is float64; hyperparameters are randomised (seeded) and PAIRWISE DISTINCT over the whole kernel
+instance (every ARD component, every batch element, every member of a composition: assert_distinct), so that no
+relation can hold by a symmetry of the parameters; c06.py additionally probes that the distinct values are visible
+(permuting the input columns of an ARD kernel / swapping the batch elements changes the matrix)."""
 import zlib
 
 import torch
@@ -24,6 +27,19 @@ def randomise(k, g):
         if name.endswith("raw_mixture_means"):
             v = v * 0.3 - 1.5
         p.data = v.to(p.dtype)
+    return k
+
+
+def assert_distinct(k, gap=1e-6):
+    """No two raw parameter entries of the kernel instance are equal (a draw that collides is a machinery failure: the
+    generator is seeded, so this never depends on chance at run time)."""
+    ps = [p.detach().reshape(-1).double() for p in k.parameters()]
+    if not ps:
+        return k
+    v = torch.cat(ps).sort().values
+    if v.numel() > 1 and float((v[1:] - v[:-1]).min()) < gap:
+        from harness import core
+        raise core.Machinery("two hyperparameter entries of %s coincide (gap %.2e): the instance is symmetric" % (type(k).__name__, float((v[1:] - v[:-1]).min())))
     return k
 
 
@@ -84,8 +100,10 @@ def label_inputs(shape_b, n, col=0):
 # ---------------------------------------------------------------------------------------------------------------
 # the zoo.  make(PB, ad, d) -> kernel over d feature columns (after active_dims selection the kernel sees len(ad)).
 class Z:
-    def __init__(self, name, make, t=1, batch=True, xkind="real", ad=True, sym=True, diag=True, stack=True, quick=False, eval_mode=False, d=D_FULL):
+    def __init__(self, name, make, t=1, batch=True, xkind="real", ad=True, sym=True, diag=True, stack=True, quick=False, eval_mode=False, d=D_FULL, ard=False, xscale=1.0):
         self.name, self.make, self.t, self.batch, self.xkind, self.d = name, make, t, batch, xkind, d
+        self.xscale = xscale  # inputs are drawn from [-xscale, xscale]^d (compactly supported kernels need points closer than a lengthscale)
+        self.ard = ard  # per-dimension parameters: permuting the input columns must change the matrix (probe of c06.py)
         self.ad, self.sym, self.diag, self.stack, self.quick, self.eval_mode = ad, sym, diag, stack, quick, eval_mode
         self.inner_ad = False
 
@@ -113,17 +131,17 @@ def zoo():
         out[-1].inner_ad = inner_ad
 
     add("RBF", lambda PB, ad, d: gk.RBFKernel(**_kw(PB, ad)), quick=True)
-    add("RBF-ard", lambda PB, ad, d: gk.RBFKernel(ard_num_dims=_dim(d, ad), **_kw(PB, ad)))
+    add("RBF-ard", lambda PB, ad, d: gk.RBFKernel(ard_num_dims=_dim(d, ad), **_kw(PB, ad)), ard=True)
     add("Matern0.5", lambda PB, ad, d: gk.MaternKernel(nu=0.5, **_kw(PB, ad)))
     add("Matern1.5", lambda PB, ad, d: gk.MaternKernel(nu=1.5, **_kw(PB, ad)))
-    add("Matern2.5-ard", lambda PB, ad, d: gk.MaternKernel(nu=2.5, ard_num_dims=_dim(d, ad), **_kw(PB, ad)), quick=True)
+    add("Matern2.5-ard", lambda PB, ad, d: gk.MaternKernel(nu=2.5, ard_num_dims=_dim(d, ad), **_kw(PB, ad)), quick=True, ard=True)
     add("RQ", lambda PB, ad, d: gk.RQKernel(**_kw(PB, ad)))
     add("Periodic", lambda PB, ad, d: gk.PeriodicKernel(**_kw(PB, ad)))
     add("Cosine", lambda PB, ad, d: gk.CosineKernel(**_kw(PB, ad)))
     add("Linear", lambda PB, ad, d: gk.LinearKernel(**_kw(PB, ad)), quick=True)
-    add("Linear-ard", lambda PB, ad, d: gk.LinearKernel(ard_num_dims=_dim(d, ad), **_kw(PB, ad)))
+    add("Linear-ard", lambda PB, ad, d: gk.LinearKernel(ard_num_dims=_dim(d, ad), **_kw(PB, ad)), ard=True)
     add("Polynomial", lambda PB, ad, d: gk.PolynomialKernel(power=2, **_kw(PB, ad)))
-    add("PiecewisePolynomial", lambda PB, ad, d: gk.PiecewisePolynomialKernel(q=2, **_kw(PB, ad)))
+    add("PiecewisePolynomial", lambda PB, ad, d: gk.PiecewisePolynomialKernel(q=2, **_kw(PB, ad)), xscale=0.15)
     add("Constant", lambda PB, ad, d: gk.ConstantKernel(**_kw(PB, ad)))
     add("SpectralMixture", lambda PB, ad, d: gk.SpectralMixtureKernel(num_mixtures=2, ard_num_dims=_dim(d, ad), **_kw(PB, ad)))
     add("RFF", lambda PB, ad, d: gk.RFFKernel(num_samples=4, num_dims=_dim(d, ad), **_kw(PB, ad)))
@@ -159,6 +177,24 @@ def zoo():
     add("RBFGrad(d=2)", lambda PB, ad, d: gk.RBFKernelGrad(batch_shape=_bs(PB)), t=3, ad=False, d=2)
     add("Matern52Grad(d=1)", lambda PB, ad, d: gk.Matern52KernelGrad(batch_shape=_bs(PB)), t=2, ad=False, d=1)
     add("PolynomialGrad(d=1)", lambda PB, ad, d: gk.PolynomialKernelGrad(power=2, batch_shape=_bs(PB)), t=2, ad=False, d=1)
+    # derivative kernels over d >= 2 input dimensions with ARD lengthscales (pairwise distinct): the layout of their outputs
+    # (value, d/dx_1, ..., d/dx_d per point) is only visible when the dimensions are distinguishable
+    add("RBFGrad-ard(d=2)", lambda PB, ad, d: gk.RBFKernelGrad(ard_num_dims=2, batch_shape=_bs(PB)), t=3, ad=False, d=2, ard=True)
+    add("Matern52Grad-ard(d=2)", lambda PB, ad, d: gk.Matern52KernelGrad(ard_num_dims=2, batch_shape=_bs(PB)), t=3, ad=False, d=2, ard=True)
+    add("PolynomialGrad(d=2)", lambda PB, ad, d: gk.PolynomialKernelGrad(power=3, batch_shape=_bs(PB)), t=3, ad=False, d=2)
+    add("Scale(RBFGrad-ard(d=2))", lambda PB, ad, d: gk.ScaleKernel(gk.RBFKernelGrad(ard_num_dims=2, batch_shape=_bs(PB)), batch_shape=_bs(PB)), t=3, ad=False, d=2, ard=True)
+    add("RBFGradGrad(d=1)", lambda PB, ad, d: gk.RBFKernelGradGrad(batch_shape=_bs(PB)), t=3, ad=False, d=1)
+    add("RBFGradGrad-ard(d=2)", lambda PB, ad, d: gk.RBFKernelGradGrad(ard_num_dims=2, batch_shape=_bs(PB)), t=5, ad=False, d=2, ard=True)
+    add("RBFGrad-ard(d=3)", lambda PB, ad, d: gk.RBFKernelGrad(ard_num_dims=3, batch_shape=_bs(PB)), t=4, ad=False, ard=True)
+    # per-dimension parameters of the remaining stationary kernels, and a multitask kernel over an ARD data kernel
+    add("RQ-ard", lambda PB, ad, d: gk.RQKernel(ard_num_dims=_dim(d, ad), **_kw(PB, ad)), ard=True)
+    add("Periodic-ard", lambda PB, ad, d: gk.PeriodicKernel(ard_num_dims=_dim(d, ad), **_kw(PB, ad)), ard=True)
+    add("PiecewisePolynomial-ard", lambda PB, ad, d: gk.PiecewisePolynomialKernel(q=1, ard_num_dims=_dim(d, ad), **_kw(PB, ad)), ard=True, xscale=0.15)
+    add("Multitask(Matern-ard,t=2)", lambda PB, ad, d: gk.MultitaskKernel(gk.MaternKernel(nu=2.5, ard_num_dims=_dim(d, ad), batch_shape=_bs(PB)), num_tasks=2, rank=1, **_kw(PB, ad)),
+        t=2, batch=False, ard=True)
+    # a sum / product whose members do not all own a parameter batch (kernel[i] of the unbatched member is the member itself)
+    add("Sum(Matern-ard,Linear0)", lambda PB, ad, d: gk.AdditiveKernel(gk.MaternKernel(nu=1.5, ard_num_dims=_dim(d, ad), **_kw(PB, ad)), gk.LinearKernel(**_kw((), ad))), ard=True, quick=True)
+    add("Product(Scale(RBF),RQ0)", lambda PB, ad, d: gk.ProductKernel(gk.ScaleKernel(gk.RBFKernel(**_kw(PB, ad)), batch_shape=_bs(PB)), gk.RQKernel(**_kw((), ad))))
     return out
 
 
@@ -178,6 +214,7 @@ def build(z, PB, ad, seed):
     torch.manual_seed(seed)
     k = z.make(tuple(PB), ad, D_FULL).double()
     randomise(k, g)
+    assert_distinct(k)
     if z.eval_mode:
         k.eval()
     return k
@@ -210,4 +247,4 @@ def inputs(z, shape_b, n, seed):
     if z.xkind == "onehot":
         idx = torch.randint(0, 3, (*shape_b, n), generator=g)
         return torch.nn.functional.one_hot(idx, 3).double()
-    return torch.rand(*shape_b, n, D_FULL, generator=g, dtype=torch.float64) * 2.0 - 1.0
+    return (torch.rand(*shape_b, n, D_FULL, generator=g, dtype=torch.float64) * 2.0 - 1.0) * z.xscale
